@@ -42,41 +42,38 @@ theorem step_deaden_sent (pol : Option Policy) (m : M) (a : Act) : (step pol m (
     | none => rfl
     | some x => cases x <;> first | rfl | simp [M.count]
 
-theorem stepC_attDone (pol : Option Policy) (derived : Bool) (c : MC) (a : ActC) (h : c.attDone derived = true) :
-    (stepC pol derived c a).attDone derived = true ∧ (stepC pol derived c a).m.sent = c.m.sent := by
+theorem stepC_attDone (pol : Option Policy) (c : MC) (a : ActC) (h : c.attDone = true) :
+    (stepC pol c a).attDone = true ∧ (stepC pol c a).m.sent = c.m.sent := by
   cases a with
   | callerCancel => simp [stepC, MC.attDone]
   | execCancel =>
     simp only [stepC]
     split
     · refine ⟨?_, rfl⟩
-      simp only [MC.attDone, Bool.or_eq_true, Bool.and_eq_true] at h ⊢
-      rcases h with h | ⟨_, h2⟩
-      · exact Or.inl h
-      · exact Or.inr (by simpa using h2)
+      simp [MC.attDone]
     · exact ⟨h, rfl⟩
   | ex a =>
     simp only [stepC, h, if_true]
     exact ⟨h, step_deaden_sent pol c.m a⟩
 
-theorem runC_frozen (pol : Option Policy) (derived : Bool) :
-    ∀ (sched : List ActC) (c : MC), c.attDone derived = true →
-      (runC pol derived c sched).attDone derived = true ∧ (runC pol derived c sched).m.sent = c.m.sent
+theorem runC_frozen (pol : Option Policy) :
+    ∀ (sched : List ActC) (c : MC), c.attDone = true →
+      (runC pol c sched).attDone = true ∧ (runC pol c sched).m.sent = c.m.sent
   | [], c, h => ⟨h, rfl⟩
   | a :: sched, c, h => by
     simp only [runC, List.foldl_cons]
-    have h1 := stepC_attDone pol derived c a h
-    have h2 := runC_frozen pol derived sched _ h1.1
+    have h1 := stepC_attDone pol c a h
+    have h2 := runC_frozen pol sched _ h1.1
     exact ⟨h2.1, by rw [← h1.2]; exact h2.2⟩
 
-theorem runC_append (pol : Option Policy) (derived : Bool) (c : MC) (s1 s2 : List ActC) :
-    runC pol derived c (s1 ++ s2) = runC pol derived (runC pol derived c s1) s2 := by
+theorem runC_append (pol : Option Policy) (c : MC) (s1 s2 : List ActC) :
+    runC pol c (s1 ++ s2) = runC pol (runC pol c s1) s2 := by
   simp [runC, List.foldl_append]
 
 /-! ### the first result stays -/
 
-theorem stepC_result (pol : Option Policy) (derived : Bool) (c : MC) (a : ActC) (r : CRes) (h : c.result = some r) :
-    (stepC pol derived c a).result = some r := by
+theorem stepC_result (pol : Option Policy) (c : MC) (a : ActC) (r : CRes) (h : c.result = some r) :
+    (stepC pol c a).result = some r := by
   cases a with
   | callerCancel => simp [stepC, h]
   | execCancel => simp only [stepC]; split <;> exact h
@@ -86,12 +83,12 @@ theorem stepC_result (pol : Option Policy) (derived : Bool) (c : MC) (a : ActC) 
     · exact h
     · cases a <;> simp [h]
 
-theorem runC_result (pol : Option Policy) (derived : Bool) (r : CRes) :
-    ∀ (sched : List ActC) (c : MC), c.result = some r → (runC pol derived c sched).result = some r
+theorem runC_result (pol : Option Policy) (r : CRes) :
+    ∀ (sched : List ActC) (c : MC), c.result = some r → (runC pol c sched).result = some r
   | [], _, h => h
   | a :: sched, c, h => by
     simp only [runC, List.foldl_cons]
-    exact runC_result pol derived r sched _ (stepC_result pol derived c a r h)
+    exact runC_result pol r sched _ (stepC_result pol c a r h)
 
 /-! ### no result yet ⇒ nothing has completed, nothing is cancelled -/
 
@@ -173,9 +170,9 @@ structure Waiting (c : MC) : Prop where
 theorem waiting_init (c0 hosts e : Nat) : Waiting (initC c0 hosts e) :=
   ⟨rfl, rfl, by simp [initC, init, wsum_replicate_idle wD rfl]⟩
 
-theorem stepC_waiting (pol : Option Policy) (derived : Bool) (c : MC) (a : ActC)
-    (hi : c.result = none → Waiting c) (h : (stepC pol derived c a).result = none) :
-    Waiting (stepC pol derived c a) := by
+theorem stepC_waiting (pol : Option Policy) (c : MC) (a : ActC)
+    (hi : c.result = none → Waiting c) (h : (stepC pol c a).result = none) :
+    Waiting (stepC pol c a) := by
   cases a with
   | callerCancel => simp [stepC] at h
   | execCancel =>
@@ -188,7 +185,7 @@ theorem stepC_waiting (pol : Option Policy) (derived : Bool) (c : MC) (a : ActC)
     · exact hi (by split at h <;> first | exact h | (simp only at h; exact h))
   | ex a =>
     simp only [stepC] at h ⊢
-    by_cases hd : c.attDone derived = true
+    by_cases hd : c.attDone = true
     · simp only [hd, if_true] at h ⊢
       have w := hi h
       simp [MC.attDone, w.caller, w.exec] at hd
@@ -231,19 +228,19 @@ theorem stepC_waiting (pol : Option Policy) (derived : Bool) (c : MC) (a : ActC)
           show wsum wD (step pol c.m _).exs = 0
           rw [this]; exact w.none_done⟩
 
-theorem runC_waiting (pol : Option Policy) (derived : Bool) :
+theorem runC_waiting (pol : Option Policy) :
     ∀ (sched : List ActC) (c : MC), (c.result = none → Waiting c) →
-      (runC pol derived c sched).result = none → Waiting (runC pol derived c sched)
+      (runC pol c sched).result = none → Waiting (runC pol c sched)
   | [], c, hi, h => hi h
   | a :: sched, c, hi, h => by
     simp only [runC, List.foldl_cons] at h ⊢
-    exact runC_waiting pol derived sched _ (stepC_waiting pol derived c a hi) h
+    exact runC_waiting pol sched _ (stepC_waiting pol c a hi) h
 
 /-! ### the plain machine's invariants carry over -/
 
 /-- every step of the machine with cancellation is a step of the plain machine, or leaves it alone -/
-theorem stepC_m (pol : Option Policy) (derived : Bool) (c : MC) (a : ActC) :
-    (stepC pol derived c a).m = c.m ∨ ∃ a', (stepC pol derived c a).m = step pol c.m a' := by
+theorem stepC_m (pol : Option Policy) (c : MC) (a : ActC) :
+    (stepC pol c a).m = c.m ∨ ∃ a', (stepC pol c a).m = step pol c.m a' := by
   cases a with
   | callerCancel => exact Or.inl rfl
   | execCancel => simp only [stepC]; split <;> exact Or.inl rfl
@@ -257,40 +254,40 @@ theorem stepC_m (pol : Option Policy) (derived : Bool) (c : MC) (a : ActC) :
       | complete i r => exact Or.inr ⟨.complete i r, rfl⟩
       | decide i => exact Or.inr ⟨.decide i, rfl⟩
 
-theorem runC_acc (pol : Option Policy) (derived : Bool) (c0 e : Nat) :
-    ∀ (sched : List ActC) (c : MC), Acc c0 e c.m → Acc c0 e (runC pol derived c sched).m
+theorem runC_acc (pol : Option Policy) (c0 e : Nat) :
+    ∀ (sched : List ActC) (c : MC), Acc c0 e c.m → Acc c0 e (runC pol c sched).m
   | [], _, h => h
   | a :: sched, c, h => by
     simp only [runC, List.foldl_cons]
-    refine runC_acc pol derived c0 e sched _ ?_
-    rcases stepC_m pol derived c a with h1 | ⟨a', h1⟩
+    refine runC_acc pol c0 e sched _ ?_
+    rcases stepC_m pol c a with h1 | ⟨a', h1⟩
     · rw [h1]; exact h
     · rw [h1]; exact acc_step pol c0 e c.m a' h
 
-theorem runC_inv (p : Policy) (N : Nat) (hp : ∀ m, p.attempt m = decide (m ≤ N)) (derived : Bool) (c0 e : Nat) :
-    ∀ (sched : List ActC) (c : MC), Inv N c0 e c.m → Inv N c0 e (runC (some p) derived c sched).m
+theorem runC_inv (p : Policy) (N : Nat) (hp : ∀ m, p.attempt m = decide (m ≤ N)) (c0 e : Nat) :
+    ∀ (sched : List ActC) (c : MC), Inv N c0 e c.m → Inv N c0 e (runC (some p) c sched).m
   | [], _, h => h
   | a :: sched, c, h => by
     simp only [runC, List.foldl_cons]
-    refine runC_inv p N hp derived c0 e sched _ ?_
-    rcases stepC_m (some p) derived c a with h1 | ⟨a', h1⟩
+    refine runC_inv p N hp c0 e sched _ ?_
+    rcases stepC_m (some p) c a with h1 | ⟨a', h1⟩
     · rw [h1]; exact h
     · rw [h1]; exact inv_step p N hp c0 e c.m a' h
 
 /-! ### the consistency level under concurrent executions -/
 
-theorem runK_c (pol : Option Policy) (derived : Bool) :
-    ∀ (sched : List ActC) (k : MK), (runK pol derived k sched).c = runC pol derived k.c sched
+theorem runK_c (pol : Option Policy) :
+    ∀ (sched : List ActC) (k : MK), (runK pol k sched).c = runC pol k.c sched
   | [], _ => rfl
   | a :: sched, k => by
     simp only [runK, runC, List.foldl_cons]
-    exact runK_c pol derived sched (stepK pol derived k a)
+    exact runK_c pol sched (stepK pol k a)
 
 /-- a level the statement can have: its own, or one the policy sets -/
 def Level (pol : Option Policy) (cons0 x : Nat) : Prop := x = cons0 ∨ ∃ p n, pol = some p ∧ p.newCons n = some x
 
-theorem consAfter_level (pol : Option Policy) (derived : Bool) (cons0 : Nat) (k : MK) (a : ActC)
-    (h : Level pol cons0 k.cons) : Level pol cons0 (consAfter pol derived k a) := by
+theorem consAfter_level (pol : Option Policy) (cons0 : Nat) (k : MK) (a : ActC)
+    (h : Level pol cons0 k.cons) : Level pol cons0 (consAfter pol k a) := by
   unfold consAfter
   split
   · rename_i _ _ i p _
@@ -303,10 +300,10 @@ theorem consAfter_level (pol : Option Policy) (derived : Bool) (cons0 : Nat) (k 
     · exact h
   · exact h
 
-theorem stepK_level (pol : Option Policy) (derived : Bool) (cons0 : Nat) (k : MK) (a : ActC)
+theorem stepK_level (pol : Option Policy) (cons0 : Nat) (k : MK) (a : ActC)
     (h : Level pol cons0 k.cons ∧ ∀ x ∈ k.reqCons, Level pol cons0 x) :
-    Level pol cons0 (stepK pol derived k a).cons ∧ ∀ x ∈ (stepK pol derived k a).reqCons, Level pol cons0 x := by
-  have h1 := consAfter_level pol derived cons0 k a h.1
+    Level pol cons0 (stepK pol k a).cons ∧ ∀ x ∈ (stepK pol k a).reqCons, Level pol cons0 x := by
+  have h1 := consAfter_level pol cons0 k a h.1
   refine ⟨h1, ?_⟩
   intro x hx
   simp only [stepK] at hx
@@ -316,13 +313,13 @@ theorem stepK_level (pol : Option Policy) (derived : Bool) (cons0 : Nat) (k : MK
     · exact h.2 x e
   · exact h.2 x hx
 
-theorem runK_level (pol : Option Policy) (derived : Bool) (cons0 : Nat) :
+theorem runK_level (pol : Option Policy) (cons0 : Nat) :
     ∀ (sched : List ActC) (k : MK), (Level pol cons0 k.cons ∧ ∀ x ∈ k.reqCons, Level pol cons0 x) →
-      Level pol cons0 (runK pol derived k sched).cons ∧ ∀ x ∈ (runK pol derived k sched).reqCons, Level pol cons0 x
+      Level pol cons0 (runK pol k sched).cons ∧ ∀ x ∈ (runK pol k sched).reqCons, Level pol cons0 x
   | [], _, h => h
   | a :: sched, k, h => by
     simp only [runK, List.foldl_cons]
-    exact runK_level pol derived cons0 sched _ (stepK_level pol derived cons0 k a h)
+    exact runK_level pol cons0 sched _ (stepK_level pol cons0 k a h)
 
 
 end ExecutorConc
